@@ -1659,3 +1659,18 @@ M("c10-entry-query-looks-through-open-contexts", "C10", "R9.entry-query-stops-an
 M("c10-orphan-handler-counts-the-branch", "C10", "R5.orphan-handler-is-inert", "concurrency/executor.py",
   "            self._fatal_exception = e\n            self._completion_event.set()\n            return\n        except TimedSuspendExecution as tse:",
   "            self.counters.fail_task()\n            self._fatal_exception = e\n            self._completion_event.set()\n            return\n        except TimedSuspendExecution as tse:")
+M("c03-strategy-called-unprotected", "C03", "R1.record-before-outcome", "operation/step.py",
+  """        try:
+            retry_decision: RetryDecision = retry_strategy(error, retry_attempt + 1)
+        except Exception:  # noqa: BLE001
+            # A strategy that fails cannot decide anything: the step's own failure is recorded and
+            # raised as final, instead of leaving the call without any terminal record.
+            logger.exception(
+                "Retry strategy failed for id: %s, name: %s. Not retrying.",
+                self.operation_identifier.operation_id,
+                self.operation_identifier.name,
+            )
+            retry_decision = RetryDecision.no_retry()
+""", "        retry_decision: RetryDecision = retry_strategy(error, retry_attempt + 1)\n", desc="fix 089b20e reverted")
+M("c15-bytes-decoded-through-b64decode", "C15", "R12.leaf-decoder-no-deeper-than-leaf-encoder", "serdes.py",
+  "        return binascii.a2b_base64(value.encode(\"utf-8\"))", "        return base64.b64decode(value.encode(\"utf-8\"))", desc="fix 2d5fcf1 reverted")
